@@ -556,3 +556,66 @@ Proof.
   destruct (negb (N.eqb (c_max_errors c) 0) && N.leb (c_max_errors c) (N.of_nat (length (r_errors r)))); [discriminate|].
   destruct (r_errors r); [split; reflexivity | discriminate].
 Qed.
+
+(* ---------- C19: the event list of an error-free run ---------- *)
+Lemma exec_all_events c now : forall ts m errs evs,
+  r_errors (exec_all c now m ts errs evs) = [] ->
+  r_events (exec_all c now m ts errs evs) = rev evs ++ map (fun t => (t_action t, t_path t)) ts.
+Proof.
+  induction ts as [|t ts IH]; intros m errs evs H.
+  - cbn. rewrite app_nil_r. reflexivity.
+  - cbn [exec_all map] in *. destruct (exec_task c now m t) as [m'|x].
+    + rewrite (IH _ _ _ H). cbn [rev]. rewrite <- app_assoc. reflexivity.
+    + destruct (exec_all_noerr _ _ _ _ _ _ H) as [E _]. discriminate.
+Qed.
+
+Definition event_true (dst final : fs) (ev : eaction * path) : Prop :=
+  match fst ev with
+  | ACreate => dst (snd ev) = None /\ final (snd ev) <> None
+  | AUpdate => (exists c s t, dst (snd ev) = Some (File c s t)) /\ exists c s t, final (snd ev) = Some (File c s t)
+  | ASkip => final (snd ev) = dst (snd ev)
+  | ADelete => dst (snd ev) <> None /\ final (snd ev) = None
+  end.
+
+Theorem events_truthful refuse ds c now U src dst :
+  src_wf src -> c_dry_run c = false -> dst [] = None ->
+  (forall e, In e src -> se_is_dir e = true -> forall cc s t, dst (se_path e) <> Some (File cc s t)) ->
+  (forall e, In e src -> se_is_dir e = false -> dst (se_path e) <> Some Dir) ->
+  (forall p, dst p <> None -> In p U) ->
+  let r := run refuse ds c now U src dst in
+  r_refused r = false -> r_errors r = [] ->
+  forall ev, In ev (r_events r) -> event_true dst (r_fs r) ev.
+Proof.
+  intros Hwf Hdry Hroot Hnf Hnd2 HU r Href Herr ev Hev.
+  pose proof (run_post refuse ds c now U src dst Hwf Hdry Hroot Hnf Hnd2 Href Herr) as Hpost.
+  assert (Hevs : r_events r = map (fun t => (t_action t, t_path t))
+                   (map (plan_entry c ds dst) src ++ (if c_delete c then plan_deletions src (filter (fun p => match dst p with Some _ => true | None => false end) U) else []))).
+  { subst r. unfold run in *. cbv zeta in *.
+    match type of Href with context [if ?b then _ else _] => destruct b eqn:Eb end; [cbn in Href; discriminate|].
+    apply (exec_all_events c now _ dst [] [] Herr). }
+  rewrite Hevs in Hev. apply in_map_iff in Hev. destruct Hev as (t & <- & Ht). apply in_app_or in Ht. destruct Ht as [Ht|Ht].
+  - apply in_map_iff in Ht. destruct Ht as (e & <- & He). destruct (plan_entry_ok c ds dst e) as (_ & _ & Hp).
+    destruct (Hpost e He) as (x & Hx & Hg). fold r in Hx. unfold event_true. cbn [fst snd]. rewrite Hp.
+    unfold good, needs in Hg. unfold plan_entry in *. cbn [t_action] in *.
+    destruct (se_is_dir e) eqn:Hd.
+    + destruct (dst (se_path e)) as [y|] eqn:Ed.
+      * cbn. rewrite Hx, Hg. destruct y as [cc s t|]; [exfalso; eapply Hnf; eassumption | reflexivity].
+      * cbn. split; [reflexivity | congruence].
+    + destruct (dst (se_path e)) as [[dc dsz dmt|]|] eqn:Ed.
+      * set (a := if c_checksum c then if N.eqb dc (se_content e) then ASkip else AUpdate else if needs_update c e dsz dmt then AUpdate else ASkip) in *.
+        assert (Ha : a = ASkip \/ a = AUpdate) by (subst a; destruct (c_checksum c), (N.eqb dc (se_content e)), (needs_update c e dsz dmt); auto).
+        destruct Ha as [Ha|Ha]; rewrite Ha in *; cbn.
+        -- rewrite Hx. exact Hg.
+        -- split; [eauto|]. unfold file_post in Hg. inversion Hg; subst. eauto.
+      * exfalso. eapply Hnd2; eassumption.
+      * cbn. split; [reflexivity | congruence].
+  - destruct (c_delete c) eqn:Hdel; [|destruct Ht].
+    unfold plan_deletions in Ht. apply in_map_iff in Ht. destruct Ht as (p & <- & Hp). apply filter_In in Hp. destruct Hp as [Hin Hf].
+    apply filter_In in Hin. destruct Hin as [HpU Hs]. unfold event_true. cbn [fst snd t_action t_path]. split.
+    + destruct (dst p); [discriminate | discriminate].
+    + destruct (r_fs r p) eqn:Er; [|reflexivity]. exfalso.
+      assert (Hin : In p (paths_of src)).
+      { apply (mirror refuse ds c now U src dst Hwf Hdry Hdel Hroot Hnf Hnd2 Href Herr p HpU). fold r. congruence. }
+      apply negb_true_iff in Hf. unfold paths_of in Hin. apply in_map_iff in Hin. destruct Hin as (e & Ee & He).
+      assert (existsb (fun e0 => peqb (se_path e0) p) src = true) by (apply existsb_exists; exists e; split; [exact He | apply peqb_eq; exact Ee]). congruence.
+Qed.
